@@ -630,12 +630,7 @@ impl<C: CrcCalculator> Encapsulator<C> {
         if protocol_type < MAX_MANDATORY_VAL_PTYPE {
             // the mandatory header extension replaces the protocol type
             // checking if the last extension id corresponds to this protocol type
-            if extensions.last().unwrap().id() != protocol_type
-                && matches!(
-                    extensions.last().unwrap().data(),
-                    ExtensionData::MandatoryData(..)
-                )
-            {
+            if extensions.last().unwrap().id() != protocol_type {
                 return Err(EncapError::ErrorFinalMandatoryExtensionHeader);
             }
             is_there_final_mandatory_extension = true;
@@ -678,13 +673,13 @@ impl<C: CrcCalculator> Encapsulator<C> {
             pdu_len_encapsulated = pdu_len;
             gse_len = gse_len_min as u16;
         } else {
-            // first packet
-            let min_header_len =
-                min_header_len + FRAG_ID_LEN + TOTAL_LENGTH_LEN + total_len_extensions;
+            // first packet (min_header_len already counts the extensions)
+            let min_header_len = min_header_len + FRAG_ID_LEN + TOTAL_LENGTH_LEN;
 
             // check the buffer size
-            // if it cannot write at least more than the header
-            if buffer_len < min_header_len {
+            // if it cannot write at least more than the header,
+            // or if the header alone does not fit in the 12 bits of the gse length field
+            if buffer_len < min_header_len || min_header_len - FIXED_HEADER_LEN > GSE_LEN_MAX {
                 (self.last_label, self.re_current_consecutive) = saved_re_use_state;
                 return Err(EncapError::ErrorSizeBuffer);
             }
@@ -697,7 +692,11 @@ impl<C: CrcCalculator> Encapsulator<C> {
             }
 
             pkt_type = PktType::FirstFragPkt;
-            pdu_len_encapsulated = buffer_len - min_header_len;
+            // the payload is limited by the buffer and by the 12 bits of the gse length field
+            pdu_len_encapsulated = min(
+                buffer_len - min_header_len,
+                GSE_LEN_MAX - (min_header_len - FIXED_HEADER_LEN),
+            );
             gse_len = (FRAG_ID_LEN
                 + TOTAL_LENGTH_LEN
                 + PROTOCOL_LEN
@@ -734,7 +733,8 @@ impl<C: CrcCalculator> Encapsulator<C> {
                 };
 
                 // define encap status
-                let pkt_len = FIRST_FRAG_LEN + label_len + pdu_len_encapsulated;
+                let pkt_len =
+                    FIRST_FRAG_LEN + label_len + total_len_extensions + pdu_len_encapsulated;
                 EncapStatus::FragmentedPkt(pkt_len as u16, context_frag)
             }
             _ => EncapStatus::CompletedPkt(gse_len + FIXED_HEADER_LEN as u16),
